@@ -144,6 +144,10 @@ async fn ensure_local_authority_with_paths(
                         }
                     }
                     Ok(None) => {
+                        // The lock seen unreadable earlier is gone (it existed a moment ago and cannot be
+                        // opened now): whatever appears at the path next is a different lock with its own
+                        // grace period.
+                        lock_invalid_since = None;
                         update_last_state(
                             &mut last_state,
                             &mut backoff_ms,
